@@ -261,6 +261,19 @@ def _get_unused_imports(ast_tree: ast.Module) -> Collection[str]:
             full_name = re.sub(r"\.[^\.]*$", "", full_name)
             names.add(full_name)
 
+    # Annotations may be written as strings: def f(x: "OrderedDict") -> "List[int]"
+    annotations = [node.annotation for node in core.walk(ast_tree, (ast.arg, ast.AnnAssign))]
+    annotations += [
+        node.returns for node in core.walk(ast_tree, (ast.FunctionDef, ast.AsyncFunctionDef))
+    ]
+    for annotation in filter(None, annotations):
+        for node in core.walk(annotation, ast.Constant(value=str)):
+            try:
+                string_annotation = ast.parse(node.value, mode="eval")
+            except SyntaxError:
+                continue
+            names.update(name.id for name in core.walk(string_annotation, ast.Name))
+
     # A star import binds names that cannot be known here, so it is never unused
     return imports - names - {"*"}
 
